@@ -4,6 +4,7 @@
   serializer is modelled; see `evaluate_factors` there.)
 -/
 import RevalModel.Lemmas.Denote
+import RevalModel.Props.C13
 
 namespace Reval.C09
 
